@@ -149,7 +149,7 @@ def grid_idl(rng, n, g, first=None):
     return range(lst[0], lst[-1] + int(d[0]), int(d[0])) if len(set(d)) == 1 else [int(x) for x in lst]
 
 
-LAYOUT_CLASSES = ['same', 'strided', 'gapped', 'overlap', 'replica_subset', 'second_ensemble', 'multi_replica', 'bare_name', 'replica_subset_gapped', 'windows']
+LAYOUT_CLASSES = ['same', 'strided', 'gapped', 'overlap', 'replica_subset', 'second_ensemble', 'multi_replica', 'bare_name', 'replica_subset_gapped', 'windows', 'prefix_ensembles']
 
 
 def operand_layouts(rng, cls, k, nmin=5, nmax=24):
@@ -227,6 +227,15 @@ def operand_layouts(rng, cls, k, nmin=5, nmax=24):
         res = [full]
         for i in range(1, k):
             res.append([full[int(rng.integers(0, 2))]] if rng.random() < 0.7 else full)
+        return res
+    if cls == 'prefix_ensembles':
+        # two ensembles whose names are prefix-related, with '|replica' parts: plain string order puts 'ens10|r1' before 'ens1|r1'
+        ch = [('ens1|r1', make_idl(rng, 'contig', n)), ('ens1|r2', make_idl(rng, rng.choice(['contig', 'strided']), int(rng.integers(nmin, nmax)))),
+              ('ens10|r1', make_idl(rng, rng.choice(IDL_CLASSES), int(rng.integers(nmin, nmax))))]
+        res = []
+        for i in range(k):
+            c = int(rng.integers(0, 4)) if i else 3
+            res.append(ch[:2] if c == 0 else ch[2:] if c == 1 else [ch[0], ch[2]] if c == 2 else ch)
         return res
     if cls == 'second_ensemble':
         idlA = make_idl(rng, rng.choice(IDL_CLASSES), n)
